@@ -12,6 +12,11 @@ CHECKS = {
    text='Props/C02.v: over any commutative semiring variable elimination equals the iterated sum of the product for EVERY elimination list; the uncached project path and (through C01_exact) the cached path both return the marginal of the single explicit joint scaled to the total, so the cache is irrelevant; answers sum to the total; krondot is the Kronecker query applied to the joint. Each run compares every code path (project cached/uncached in any requested order incl. () and full, calculate_many_marginals, krondot, datavector, after save+load) under random cache-populating interleavings with the exact joint marginal computed by the extracted model.',
    design='4/C02',
    note='partial: the chaining of conditionals in calculate_many_marginals along tree paths is compared with the joint per run, not proved; pickling is exercised, not modelled. Axiom: functional_extensionality_dep. Cached-path theorem inherits the junction-tree conditions of C01.'),
+ 'C03': dict(
+   technique='Coq proof of the optimality certificate (convexity + Frank-Wolfe gap bound over all non-negative tables with the same total) + per-run decision against an independent NNLS reference and the certificate',
+   text='Props/C03.v proves over exact rationals that for the stacked objective the loss of any table exceeds the loss of EVERY non-negative table with the same total by at most <grad,P> - N*min(grad) (convexity + the vertex bound). Per run each solver (MD/RDA/IG, with earlier calls on the same engine, cyclic/nested/permuted projections incl. chordless 5-rings) is judged independently of the estimator: the table the model answers from must be a valid table whose loss equals the loss of the marginal answers (never below the optimum), must be within 2e-2*max(1,loss) of the best of an NNLS reference and the other solvers (re-run once with 4x iterations, same call history), and no worse than the uniform start; the certificate gap of the reference is recorded as certified lower bound.',
+   design='4/C03',
+   note='partial: convergence of the three float solvers is observed with the iteration counts used, not proved; the generated stream is well conditioned (0/1 queries, noise >= 0.5). Theorems closed under the global context.'),
  'C04': dict(
    technique='Coq proof over exact rationals (second-order expansion: gradient = derivative, convexity, adjointness; grouping lemmas) + differential correspondence of the whole objective against _setup/_marginal_loss',
    text='Props/C04.v: for every query matrix, answers, noise scale, point and direction the model loss satisfies loss(x+d) = loss(x) + <grad x, d> + 1/2|cQd|^2 exactly (so the gradient used is the derivative and the loss is convex), the transpose used is the adjoint, and a measurement is grouped with a clique containing its projection. The model objective sums over the supplied measurement list (each once). Every run compares loss and every gradient entry of the code (all spellings: dense/sparse/operator/None, tuple/list/str; L2 and L1; earlier _setup calls on the same engine) with the model on exact rationals, and the smoothness constant with eigvalsh of the dense Hessian.',
